@@ -94,12 +94,70 @@ def one_case(run, spec, table, muts, tag=""):
                 run.count("eager_reason_predicted")
 
 
+def component_cases(run, rng, spec, table):
+    """Stand-alone Column.validate(df) / Index.validate(df): the verdict is that
+    of the component's own constraints on the column / index it names."""
+    if spec["kind"] != "frame" or C.has_dup_labels(table):
+        return
+    try:
+        schema = B.pandas_schema(spec)
+        data = B.pandas_table(spec, table)
+    except Exception:
+        return
+    cols = {c["name"]: c for c in table["columns"]}
+    cands = [fs for fs in spec["columns"] if not fs["regex"] and fs["name"] in cols]
+    comps = []
+    if cands:
+        fs = rng.choice(cands)
+        comps.append(("Column", fs, cols[fs["name"]], schema.columns[fs["name"]]))
+    ix = spec.get("index")
+    if ix and len(ix) == 1 and schema.index is not None:
+        lev = (table.get("index") or {}).get("levels")
+        if lev is None:
+            n = len(table["columns"][0]["values"]) if table["columns"] else 0
+            lev = [{"name": None, "phys": "int64", "values": list(range(n))}]
+        if len(lev) == 1:
+            comps.append(("Index", ix[0], lev[0], schema.index))
+    for kind, fs, arr, comp in comps:
+        v = M.Verdict(True)
+        if kind == "Index" and fs.get("name") is not None and arr["name"] != fs["name"]:
+            v.errors.append(M.Err("WRONG_FIELD_NAME", fs["name"]))
+        M.field_errors(fs, arr["phys"], arr["values"], "column", fs.get("name"), v.errors, v)
+        if v.undecided:
+            run.count("component:undecided_by_docs")
+            continue
+        want = not v.errors
+        before = S.snap(data)
+        out = H.run_validate(comp, data)
+        run.case(canon_hash([kind, fs, arr]), True, sample=None)
+        run.count(f"component:{kind}:{'accept' if want else 'reject'}")
+        if out.kind == "exc":
+            if want:
+                run.violation("accepting-data-raised-internal-exception",
+                              C.brief(spec, table, {"component": kind, "field": fs.get("name"),
+                                                    "exc": repr(out.exc)[:300]}), None)
+            continue
+        if out.accepted != want:
+            run.violation("component-verdict-mismatch",
+                          C.brief(spec, table, {"component": kind, "field": fs.get("name"),
+                                                "model_accept": want,
+                                                "model_reasons": sorted({e.reason for e in v.errors}),
+                                                "impl": out.kind, "impl_reasons": out.reasons()}), None)
+        elif out.accepted:
+            d = S.diff(before, S.snap(out.result))
+            if d:
+                run.violation("returned-object-differs-from-input",
+                              C.brief(spec, table, {"component": kind, "diff": d}), None)
+
+
 def run(run, ctx):
     n = N[ctx.tier]
     for i in ctx.cases(n):
         rng = ctx.rng(PID, i)
         spec, table, muts = G.gen_case(rng)
         one_case(run, spec, table, muts)
+        if i % 3 == 0:
+            component_cases(run, rng, spec, table)
     run.floor("model_accept", 50 // 1)
     run.floor("model_reject", 50)
     run.floor("verdict_agree", 100)
@@ -114,5 +172,6 @@ def finalize(run, ctx):
                     ("reject_reason:COLUMN_NOT_IN_DATAFRAME", 10),
                     ("reject_reason:COLUMN_NOT_IN_SCHEMA", 5),
                     ("reject_reason:COLUMN_NOT_ORDERED", 5),
-                    ("kind:series", 50)]:
+                    ("kind:series", 50), ("component:Column:accept", 100),
+                    ("component:Column:reject", 30), ("component:Index:accept", 20)]:
         run.floors[name] = m
